@@ -8,8 +8,9 @@ VERIF = pathlib.Path(__file__).resolve().parent.parent
 
 
 class Evidence:
-    def __init__(self, pid, tier, seed, level="model_checking"):
+    def __init__(self, pid, tier, seed, level="model_checking", subdir=None):
         self.pid, self.tier, self.seed, self.level = pid, tier, seed, level
+        self.subdir = subdir     # checks beyond the listed properties
         self.t0 = time.time()
         self.states = 0
         self.transitions = 0
@@ -62,7 +63,9 @@ class Evidence:
                "wall_s": round(time.time() - self.t0, 2),
                "violations": self.violations}
         out = VERIF / "evidence"
-        out.mkdir(exist_ok=True)
+        if self.subdir:
+            out = out / self.subdir
+        out.mkdir(parents=True, exist_ok=True)
         (out / (self.pid + ".json")).write_text(
             json.dumps(doc, indent=1, default=str) + "\n")
         return doc
